@@ -3,14 +3,28 @@ From Coq Require Import List ZArith Bool Arith Lia Permutation.
 From NT Require Import Sx Rose ListFacts RoseFacts Surgery SurgeryFacts Machine WF MachineFacts PreserveSteps PreserveOps.
 Import ListNotations.
 
+Lemma PreserveCopy_WFx_new_empty w ty c : WFw w -> WFx w (W (trees w ++ [TS [] [] [] ty c]) (next w)).
+Proof.
+  intros H. split; [apply (WFw_new_tree w ty c H)|]. split; [cbn; lia|]. intros m Hm. left.
+  unfold all_ids in *. cbn [trees] in Hm. rewrite flat_map_app in Hm. cbn in Hm. now rewrite app_nil_r in Hm.
+Qed.
+
+Theorem WFx_op_clear w ti : WFw w -> WFx w (snd (op_clear w ti)).
+Proof. apply WFx_op_remove_children. Qed.
+
 Theorem WFw_op_clear w ti : WFw w -> WFw (snd (op_clear w ti)).
-Proof. apply WFw_op_remove_children. Qed.
+Proof. intros H0. exact (proj1 (WFx_op_clear w ti H0)). Qed.
+
+
+Theorem WFx_op_del w ti k : WFw w -> WFx w (snd (op_del w ti k)).
+Proof.
+  intros H. unfold op_del. destruct (get_tree w ti) as [t|]; [|exact (WFx_refl w H)].
+  destruct (getitem t k) as [[|n [|m l]]|]; try exact (WFx_refl w H). now apply WFx_op_remove.
+Qed.
 
 Theorem WFw_op_del w ti k : WFw w -> WFw (snd (op_del w ti k)).
-Proof.
-  intros H. unfold op_del. destruct (get_tree w ti) as [t|]; [|exact H].
-  destruct (getitem t k) as [[|n [|m l]]|]; try exact H. now apply WFw_op_remove.
-Qed.
+Proof. intros H0. exact (proj1 (WFx_op_del w ti k H0)). Qed.
+
 
 (* ---- in-place filter: a sequence of branch removals / remove_children ---- *)
 Lemma WF_remove_kids t n t' : WF t -> remove_kids t n = Some t' ->
@@ -42,62 +56,63 @@ Proof.
   intros m Hm. apply I1. now apply I2.
 Qed.
 
-Theorem WFw_op_filter w ti n vd : WFw w -> WFw (snd (op_filter w ti n vd)).
+Theorem WFx_op_filter w ti n vd : WFw w -> WFx w (snd (op_filter w ti n vd)).
 Proof.
-  intros H. unfold op_filter. destruct (get_tree w ti) as [t|] eqn:Gt; [|exact H].
-  destruct (children_of n (forest_of t)) as [ch|]; [|exact H].
+  intros H. unfold op_filter. destruct (get_tree w ti) as [t|] eqn:Gt; [|exact (WFx_refl w H)].
+  destruct (children_of n (forest_of t)) as [ch|]; [|exact (WFx_refl w H)].
   destruct (fvisit vd (T 0 dummy_info ch) false) as [[[must acts] stopped] failed]. cbn [snd]. unfold put_tree.
   destruct (WF_apply_facts acts t (WFw_tree w ti t H Gt)) as (W' & I').
-  apply (WFw_put w ti t); auto.
+  apply (WFx_put w ti t); auto.
 Qed.
+
+Theorem WFw_op_filter w ti n vd : WFw w -> WFw (snd (op_filter w ti n vd)).
+Proof. intros H0. exact (proj1 (WFx_op_filter w ti n vd H0)). Qed.
+
 
 (* ---- from_dict: a sequence of add_child(data); a refusal drops what was built ---- *)
-Lemma op_add_next w ti p d e k b : next w <= next (snd (op_add w ti p d e k b)).
-Proof.
-  unfold op_add. destruct (get_tree w ti) as [t|]; [|cbn; lia].
-  destruct (parent_path p (forest_of t)) as [pq|]; [|cbn; lia].
-  destruct (get_ch pq (forest_of t)) as [ch|]; [|cbn; lia].
-  destruct (negb (before_ok (norm_before b) ch)); [cbn; lia|].
-  destruct (match e with Some e0 => Some e0 | None => calc_id (calc t) d end) as [id|]; [|cbn; lia].
-  destruct (collides t p id); cbn; lia.
-Qed.
-
 Lemma from_dict_spec :
-  forall it ti p w, WFw w -> WFw (snd (from_dict_item ti p it w)) /\ next w <= next (snd (from_dict_item ti p it w)).
+  forall it ti p w, WFw w -> WFx w (snd (from_dict_item ti p it w)).
 Proof.
   fix IH 1. intros [d e ch] ti p w H. cbn [from_dict_item].
-  assert (X := WFw_op_add w ti p d e None BNone H). assert (Y := op_add_next w ti p d e None BNone).
-  destruct (op_add w ti p d e None BNone) as [[[|n [|n2 r]]|err] w1]; cbn [snd] in *; try (split; [assumption|lia]).
-  revert w1 X Y. induction ch as [|x l IHl]; intros w1 X Y; [cbn; split; [assumption|lia]|].
-  destruct (IH x ti n w1 X) as (X2 & Y2).
-  destruct (from_dict_item ti n x w1) as [[r2|e2] w2]; cbn [snd] in *; [|split; [assumption|lia]].
-  apply IHl; [assumption|lia].
+  assert (X := WFx_op_add w ti p d e None BNone H).
+  destruct (op_add w ti p d e None BNone) as [[[|n [|n2 r]]|err] w1]; cbn [snd] in *; try exact X.
+  revert w1 X. induction ch as [|x l IHl]; intros w1 X; [exact X|].
+  assert (X2 := IH x ti n w1 (proj1 X)).
+  destruct (from_dict_item ti n x w1) as [[r2|e2] w2]; cbn [snd] in *; [|exact (WFx_trans _ _ _ X X2)].
+  apply IHl. exact (WFx_trans _ _ _ X X2).
 Qed.
 
-Lemma from_dict_items_spec l : forall ti p w, WFw w ->
-  WFw (snd (from_dict_items ti p l w)) /\ next w <= next (snd (from_dict_items ti p l w)).
+Lemma from_dict_items_spec l : forall ti p w, WFw w -> WFx w (snd (from_dict_items ti p l w)).
 Proof.
-  induction l as [|x l IH]; intros ti p w H; cbn [from_dict_items]; [cbn; split; [assumption|lia]|].
-  destruct (from_dict_spec x ti p w H) as (X & Y).
-  destruct (from_dict_item ti p x w) as [[r|e] w2]; cbn [snd] in *; [|split; [assumption|lia]].
-  destruct (IH ti p w2 X) as (X2 & Y2). split; [assumption|lia].
+  induction l as [|x l IH]; intros ti p w H; cbn [from_dict_items]; [exact (WFx_refl w H)|].
+  assert (X := from_dict_spec x ti p w H).
+  destruct (from_dict_item ti p x w) as [[r|e] w2]; cbn [snd] in *; [|exact X].
+  exact (WFx_trans _ _ _ X (IH ti p w2 (proj1 X))).
 Qed.
 
 Lemma WFw_next_up w nx : WFw w -> next w <= nx -> WFw (W (trees w) nx).
-Proof. intros H L. replace nx with (next w + (nx - next w)) by lia. now apply (WFw_bump w). Qed.
+Proof. intros H L. exact (proj1 (WFx_W w nx H L)). Qed.
+
+Theorem WFx_op_from_dict w ti p items : WFw w -> WFx w (snd (op_from_dict w ti p items)).
+Proof.
+  intros H. unfold op_from_dict. destruct (get_tree w ti) as [t|]; [|exact (WFx_refl w H)].
+  destruct (children_of p (forest_of t)) as [[|c l]|]; try exact (WFx_refl w H).
+  assert (X := from_dict_items_spec items ti p w H).
+  destruct (from_dict_items ti p items w) as [[r|e] w1]; cbn [snd] in *; [assumption|]. apply WFx_W; [assumption|apply X].
+Qed.
 
 Theorem WFw_op_from_dict w ti p items : WFw w -> WFw (snd (op_from_dict w ti p items)).
+Proof. intros H. exact (proj1 (WFx_op_from_dict w ti p items H)). Qed.
+
+Theorem WFx_op_tree_from_dict w items : WFw w -> WFx w (snd (op_tree_from_dict w items)).
 Proof.
-  intros H. unfold op_from_dict. destruct (get_tree w ti) as [t|]; [|exact H].
-  destruct (children_of p (forest_of t)) as [[|c l]|]; try exact H.
-  destruct (from_dict_items_spec items ti p w H) as (X & Y).
-  destruct (from_dict_items ti p items w) as [[r|e] w1]; cbn [snd] in *; [assumption|now apply WFw_next_up].
+  intros H. unfold op_tree_from_dict.
+  assert (H0 : WFx w (W (trees w ++ [TS [] [] [] false None]) (next w))).
+  { apply PreserveCopy_WFx_new_empty. exact H. }
+  assert (X := from_dict_items_spec items (length (trees w)) 0 _ (proj1 H0)).
+  destruct (from_dict_items (length (trees w)) 0 items _) as [[r|e] w1]; cbn [snd next] in *; [exact (WFx_trans _ _ _ H0 X)|].
+  apply WFx_W; [assumption|]. destruct X as (_ & L & _). cbn [next] in L. exact L.
 Qed.
 
 Theorem WFw_op_tree_from_dict w items : WFw w -> WFw (snd (op_tree_from_dict w items)).
-Proof.
-  intros H. unfold op_tree_from_dict.
-  assert (H0 : WFw (W (trees w ++ [TS [] [] [] false None]) (next w))) by (apply (WFw_new_tree w false None H)).
-  destruct (from_dict_items_spec items (length (trees w)) 0 _ H0) as (X & Y).
-  destruct (from_dict_items (length (trees w)) 0 items _) as [[r|e] w1]; cbn [snd next] in *; [assumption|now apply WFw_next_up].
-Qed.
+Proof. intros H. exact (proj1 (WFx_op_tree_from_dict w items H)). Qed.
